@@ -46,7 +46,7 @@ class Prop(PropBase):
 
     def cases(self, rng, tier):
         quick = tier == "quick"
-        for _ in range(60 if quick else 2500):
+        for _ in range(60 if quick else 1600):
             nent = rng.choice([1, 1, 2, 3, 5, 8, 12])
             span = rng.choice([5, 30, 60, 90, 240, 1440])
             ncoef = rng.choice([3, 4, 5, 8, 9, 12, 15])
